@@ -4,6 +4,7 @@ CONSTANTS
   Aux <- MCAux
   NodeKinds <- MCNodeKinds
   CallSet <- MCCallSet
+  Twin <- MCTwin
   N = 3
   MaxCalls = 1
   SrcEnc = "none"
@@ -26,4 +27,9 @@ CONSTANTS
   WithNullObj = FALSE
   WithScalarObj = TRUE
   CallOps = {"ref","arr2"}
+  WithTwin = FALSE
+  CFIndirect = FALSE
+  PlainIdentity = FALSE
+  KeyByNumber = FALSE
+  CryptProbeDirectOnly = FALSE
 INVARIANTS Once Repeat Terminates NoPanic ErrorsOnlyUnsupported Shape Sharing IsoInv
